@@ -86,15 +86,33 @@ def body_factory(tier, seed):
                     class Strict(base_cls):
                         on_reset = _on("Reset", skip_schema_validation=False)(Legacy.on_reset)
                 rec = D.Recorder()
+                rec_legacy = D.Recorder()
 
                 async def go():
-                    cp = Strict("strict", D.Conn(rec))
                     import logging
+                    cp = Strict("strict", D.Conn(rec))
                     cp.logger = logging.getLogger("ov-silent")
                     await cp.route_message('[2,"rd","Reset",{"type":"NotAType","extra":1}]')
-                _asyncio.run(go())
+                    ran_strict = list(ran)
+                    del ran[:]
+                    # ... and the class that asked for skipping still skips, although Strict was declared after it
+                    lg = Legacy("legacy", D.Conn(rec_legacy))
+                    lg.logger = cp.logger
+                    await lg.route_message('[2,"rl","Reset",{"type":"NotAType","extra":1}]')
+                    ran_legacy = list(ran)
+                    del ran[:]
+                    ran.extend(ran_strict)
+                    return ran_legacy
+                ran_legacy = _asyncio.run(go())
                 rep.count("redecorated:%s:%s" % (version, variant))
                 w = O.sends(rec.seq)
+                wl = O.sends(rec_legacy.seq)
+                if ran_legacy != ["Legacy"] or not (len(wl) == 1 and wl[0][0] == 3):
+                    rep.violation("C16:redecorated-legacy:%s:%s" % (version, variant),
+                                  "after another class registered the same handler function again (%s options), the class that declared it "
+                                  "with validation skipped no longer skips: handler ran %r, written %r" % (variant, ran_legacy, wl[:1]),
+                                  {"kind": "redecorated", "version": version, "variant": variant, "which": "legacy",
+                                   "frame": '[2,"rl","Reset",{"type":"NotAType","extra":1}]', "handler_ran": ran_legacy, "written": wl[:1]})
                 if ran or not (len(w) == 1 and w[0][0] == 4):
                     rep.violation("C16:redecorated:%s:%s" % (version, variant),
                                   "a class that registers an already skip-decorated handler function again with %s options %s an invalid Reset "
